@@ -115,7 +115,7 @@ def main():
         ],
         "checks": checks,
         "not_applicable": na,
-        "notes": "All checks decide by exhaustive enumeration within stated bounds (model-checking family). known_findings.json lists repaired defects (status fixed; nothing is suppressed). seeded/ holds 139 independently seeded property-breaking changes used to demonstrate detection (all reported by the quick tier), equivalent/ 24 property-preserving refactorings (no check raises an alarm). Every check runs twice: on the release build of the harness and on a second build with overflow checks and debug assertions on (quick: smoke plan or the short plan again; thorough: the whole quick plan); coverage of the second run is merged into the evidence under coverage.checked_build. Wide k-mer types (K >= 8) are driven by a structure catalogue and by the exhaustive small-K read-set families lifted through strand-symmetric substitution codes.",
+        "notes": "All checks decide by exhaustive enumeration within stated bounds (model-checking family). known_findings.json lists repaired defects (status fixed; nothing is suppressed). seeded/ holds 151 independently seeded property-breaking changes used to demonstrate detection (all reported by the quick tier), equivalent/ 24 property-preserving refactorings (no check raises an alarm). Every check runs twice: on the release build of the harness and on a second build with overflow checks and debug assertions on (quick: smoke plan or the short plan again; thorough: the whole quick plan); coverage of the second run is merged into the evidence under coverage.checked_build. Wide k-mer types (K >= 8) are driven by a structure catalogue and by the exhaustive small-K read-set families lifted through strand-symmetric substitution codes.",
     }
     json.dump(m, open(os.path.join(V, "MANIFEST.json"), "w"), indent=1)
     print("wrote MANIFEST.json:", len(checks), "checks,", len(na), "not claimed")
